@@ -4,7 +4,7 @@ patch.diff, the demonstration, the author's notes and meta.json (property, what 
 what was run to confirm it, which checks catch it)."""
 import glob, json, os, shutil, sys
 pid, v = sys.argv[1], sys.argv[2]
-src = f"/tmp/seed/{pid}"
+src = f"/root/work/seed/{pid}"
 ev = json.load(open(f"{src}/{v}.eval.json"))
 if not ev.get("confirmed"):
     print("not confirmed - not stored"); sys.exit(1)
@@ -30,7 +30,7 @@ meta = {
     "needs_to_manifest": (notes.split("\n\n")[1] if notes.count("\n\n") else notes)[:1200],
     "author": "independent sub-agent given only the property text and a scratch worktree",
     "confirmation": {
-        "how": "lib/seed_eval.py in scratch worktree /tmp/wt/eval (never /repo): git apply; cargo test --workspace --no-fail-fast --offline; demonstration with and without the change",
+        "how": "lib/seed_eval.py in scratch worktree /root/work/wt/eval (never /repo): git apply; cargo test --workspace --no-fail-fast --offline; demonstration with and without the change",
         "suite_with_change": ev["suite_with_change"],
         "demo_kind": ev["demo_with_change"]["kind"],
         "demo_holds_without_change": ev["demo_without_change"]["holds"],
